@@ -305,7 +305,49 @@ def check(case):
             _contract(out, "relation", a, b)
         for a, b in zip(C[:5], Ce[:5]):
             _contract(out, "constraint", a, b)
+    # in-place edits after the objects have been compared, hashed and sorted once (stale cached keys):
+    # the edited object must equal an independent build of the edited spec and differ from the original
+    for ed in case["edits"]:
+        if ed["label"] not in ("card", "operand", "operator", "rename", "root-rename"):
+            continue
+        m2 = build.build(case["model"])
+        lib(lambda: (m2 == m, hash(m2), sorted(m2.ctcs), sorted(build.walk_objects(m2)[1]), {c: 1 for c in m2.ctcs}))
+        e = build.build(ed["model"])
+        if not _copy_scalars(m2, e):
+            continue
+        if _contract(out, "model", m2, e) is False:
+            out.append((f"C20.model.in-place-edit-not-seen:{ed['label']}", "edited object != fresh build of the edited model"))
+        if _contract(out, "model", m2, m) is True:
+            out.append((f"C20.model.in-place-edit-still-equal:{ed['label']}", "edited object == original model"))
     return [(k, d) for k, d in dict.fromkeys(out)]
+
+
+def _copy_scalars(dst, src):
+    """Make dst the same model as src by assigning scalar fields in place (same shape required)."""
+    fd, rd = build.walk_objects(dst)
+    fs, rs = build.walk_objects(src)
+    if len(fd) != len(fs) or len(rd) != len(rs) or len(dst.ctcs) != len(src.ctcs):
+        return False
+    for a, b in zip(fd, fs):
+        a.name = b.name
+    for a, b in zip(rd, rs):
+        if len(a.children) != len(b.children):
+            return False
+        a.card_min, a.card_max = b.card_min, b.card_max
+
+    def nodes(n, acc):
+        if n is not None:
+            acc.append(n)
+            nodes(n.left, acc)
+            nodes(n.right, acc)
+        return acc
+    for ca, cb in zip(dst.ctcs, src.ctcs):
+        na, nb = nodes(ca.ast.root, []), nodes(cb.ast.root, [])
+        if len(na) != len(nb):
+            return False
+        for x, y in zip(na, nb):
+            x.data = y.data
+    return True
 
 
 def nontrivial(case):
